@@ -346,6 +346,8 @@ func checkVerify(c *core.Ctx, rng *rand.Rand, u *universe, g *verifier.Graph, ve
 			}
 		}
 	}
+	// WalkChains returns chains in map order: sort before drawing so that the case list depends on the seed only
+	sort.Slice(members, func(i, j int) bool { return members[i].ID < members[j].ID })
 	rng.Shuffle(len(members), func(i, j int) { members[i], members[j] = members[j], members[i] })
 	for i := 0; i < len(members) && i < 2; i++ {
 		addTimes(boundaryTimes(members[i]))
